@@ -53,12 +53,17 @@ structure Obj where
 
 def Obj.key (o : Obj) : Key := ⟨o.ns, o.name⟩
 
-/-- `schema.ParseGroupVersion`: `none` = error -/
+/-- the pieces of a string between '/' characters (structural, so that literals evaluate by `decide`) -/
+def splitSlash : List Char → List Char → List (List Char)
+  | [], cur => [cur.reverse]
+  | c :: cs, cur => if c = '/' then cur.reverse :: splitSlash cs [] else splitSlash cs (c :: cur)
+
+/-- `schema.ParseGroupVersion`: `none` = error (`strings.Count(gv, "/")` is 0, 1 or more) -/
 def parseGV (gv : String) : Option (String × String) :=
   if gv = "" ∨ gv = "/" then some ("", "")
-  else match gv.splitOn "/" with
-    | [v] => some ("", v)
-    | [g, v] => some (g, v)
+  else match splitSlash gv.toList [] with
+    | [v] => some ("", String.ofList v)
+    | [g, v] => some (String.ofList g, String.ofList v)
     | _ => none
 
 /-- `schema.FromAPIVersionAndKind` -/
